@@ -20,6 +20,10 @@ CLAIMED = {
         technique="runtime monitoring: dependency-order monitor over the chain::Watch/Persist taps (update ids, step contents via the `_verif` accessor, completion instants) against the message, broadcast and event streams",
         text="On a line of three nodes with asynchronous and deferred persistence, completions delivered first/last/random, disconnections and restarts with in-flight writes, the monitor checks that update ids are gap-free (replays identical), that commitment_signed / revoke_and_ack / channel_ready / funding broadcast / PaymentClaimed are only released once the update they depend on and all earlier ones completed, that preimage updates are handed out in the learning call, and that peers never hit an error under delayed persistence. Quick ~1.2k runs (~4*10^4 dependency evaluations); thorough ~36k runs.",
         note=WORLD_NOTE),
+    "C10": dict(category="fault_enumeration", design_ref="DESIGN.md §6 C10",
+        technique="runtime monitoring with fault injection: crash-point enumeration over the victim's durable writes of recorded scenarios (virtual crash at the n-th write, rebuild from the model disk), with the commitment/revocation/ordering monitors kept alive across the restart",
+        text="Every selected crash point of every base scenario is an independent deterministic re-execution up to the victim's n-th durable write, followed by a rebuild from the most recently persisted (or an older) ChannelManager and the durable monitors with in-flight writes independently lost or kept, optionally a second crash during recovery, then reconnection and quiescence. Judged: reading back succeeds; a manager serialized at the stop is never declared outdated; resumed channels never error or close and all their later commitments match the reference model fed with the pre-crash history; the revocation and ordering automata (C05/C09 rules) keep their pre-crash state. Quick: 64 scenarios x <=12 points + 800 random-restart runs; thorough: 480 scenarios fully enumerated (<=400 points each) + 24k runs.",
+        note=WORLD_NOTE + " On-chain resolution of channels closed by a stale restart is judged by the C07 machinery, not here."),
     "C16": dict(
         category="exploration",
         technique="runtime monitoring: independent route-validity oracle over find_route on generated graphs (reference-model monitor), reachability oracle for completeness in the slack regime",
